@@ -884,7 +884,7 @@ func loadObject(
 			return nil, err
 		}
 
-		if err := scope.AddAlias(tableName, fileIdentifier.Literal); err != nil {
+		if err := scope.AddTemporaryTableAlias(tableName, fileIdentifier.Literal); err != nil {
 			return nil, err
 		}
 
